@@ -1,3 +1,6 @@
+// 64-bit target (usize arithmetic on stream/queue lengths is checked against 2^64)
+global size_of usize == 8;
+
 // ---- shared bit-string vocabulary (DESIGN §4.1), written from the property statement (C12) ----
 pub open spec fn bit8(x: u8, k: int) -> bool { (x >> (k as u8)) & 1u8 == 1u8 }
 /// bit i (LSB first) of a byte sequence
